@@ -12,7 +12,7 @@ Not decided: UTF-8 lossy conversion, Path::join semantics, zip truncation on une
 import re
 from engine import op_place, const_int
 from terms import TermBuilder, render, strip_proj
-from common import switch_info, arms_of, reach_from, err_assign_blocks, fmt_key
+from common import ok_assign_blocks, switch_info, arms_of, reach_from, err_assign_blocks, fmt_key
 from c01 import agg_fields
 
 G = "rpm::headers::header::Header::<T>::get_entry_data_as_"
@@ -158,6 +158,13 @@ def run(f, fixture, rep, cfg, tier):
                 nx = [c for c in calls if c.decl == "std::iter::Iterator::next" and (c.self_ty or "").startswith("std::ops::Range<u32>")]
                 okl = len(cs) >= 1 and len(nx) >= 1 and any(render(tb.term(c.args[0])).endswith(".num_items}") for c in nx)
                 rep.check(okl, "R1", "decode|%s" % variant, "%s: num_items NUL-terminated strings" % variant, "%s arm is not a loop of num_items take_till steps" % variant, ph.span)
+        # text decoding keeps the text: every bytes->str conversion on the decode path is the lossy (never failing, never
+        # dropping) one; a strict conversion with a fallback value silently replaces a non-UTF-8 string by the fallback
+        convs = [c for c in ph.calls() if re.search(r"(from_utf8\w*|from_utf16\w*)$", c.decl)]
+        rep.floor("R1", "bytes->text conversions in parse_header", len(convs), 2)
+        for i_, c in enumerate(convs):
+            rep.check(c.decl.endswith("String::from_utf8_lossy"), "R1", "decode|text|#%d" % i_, "string data is converted with from_utf8_lossy",
+                      "string data is converted with %s: a string that is not valid UTF-8 is no longer returned as stored (lossily decoded) but replaced or rejected" % c.decl, c.loc())
         # zero byte is the terminator
         for cb in f.closures_of(ph):
             for bb in cb.reachable():
@@ -305,6 +312,11 @@ def run(f, fixture, rep, cfg, tier):
               "find_entry_or_err no longer scans the index with a tag-equality predicate (calls: %s)" % sorted({c.decl.rsplit("::", 2)[-1] for c in fe.calls()})[:8], fe.span)
     rep.check(errs == {"TagNotFound"}, "R3", "find_entry|error", "an absent tag is TagNotFound", "find_entry_or_err yields %s" % sorted(errs), fe.span)
 
+    # ---- R7 tag numbers -----------------------------------------------------------------------------------------
+    rep.rule("R7", "tag numbers equal rpm's (rpmtag.h)")
+    from tagtable import check_tag_numbers
+    check_tag_numbers(f, rep, "R7")
+
     # ---- R4 accessor table ------------------------------------------------------------------------------------
     def accessor(name):
         bs = [b for b in f.body_list if b.name == name and (b.impl_self or "").endswith("package::PackageMetadata") and b.kind != "closure"]
@@ -387,6 +399,35 @@ def run(f, fixture, rep, cfg, tier):
     rep.check(elem_of(dep.get("name", "")) == ("string_array", "header", "names_tag") and okp and elem_of(flags_inner) == ("u32_array", "header", "flags_tag")
               and elem_of(dep.get("version", "")) == ("string_array", "header", "versions_tag"),
               "R5", "get_dependencies|fields", "Dependency{name <- names[i], flags <- bits(flags[i]), version <- versions[i]}", "Dependency is assembled as %s" % {k: v[:120] for k, v in dep.items()}, gd.span)
+    # "no such dependencies" is reported only when none of the three tags exists: the empty result is reached only through the
+    # failure of all three getters (a partly present triple is an error, not an empty list)
+    tgd0 = TermBuilder(gd)
+    empties = []
+    for bb in ok_assign_blocks(gd):
+        for st in gd.stmts(bb):
+            if st["k"] == "assign" and st["lhs"]["l"] == 0 and st["rv"]["r"] == "agg" and st["rv"].get("variant") == "Ok":
+                r0 = render(tgd0.term(st["rv"]["ops"][0]))
+                if r0 in ("vec![]", "buf[]") or r0.endswith("Vec::<T>::new()"):
+                    empties.append(bb)
+    gcalls = [c for c in gd.calls() if re.search(r"get_entry_data_as_(string_array|u32_array)$", c.decl)]
+    if rep.check(len(empties) >= 1 and len(gcalls) == 3, "R5", "get_dependencies|empty-result", "get_dependencies has an empty result for absent tags", "no `Ok(vec![])` return (%d) or not three getter calls (%d) in get_dependencies" % (len(empties), len(gcalls)), gd.span):
+        for g in gcalls:
+            tagname = render(tgd0.term(g.args[1]))
+            tested = False
+            for sb in sorted(gd.reachable()):
+                info = switch_info(gd, sb)
+                if not info or info["kind"] != "discr":
+                    continue
+                lvs = gd.origins(info["place"], passthrough={})
+                if not any(l["kind"] == "call" and l["call"] is g and not [p for p in l["proj"] if p.startswith("as ")] for l in lvs):
+                    continue
+                errt = info["targets"].get(1)
+                if errt is None and info["targets"].get(0) is not None:
+                    errt = info["otherwise"]
+                if errt is not None and all(gd.dominates(errt, eb) for eb in empties):
+                    tested = True
+            rep.check(tested, "R5", "get_dependencies|empty-needs-absent|%s" % tagname, "the empty result requires %s to be absent" % tagname,
+                      "get_dependencies returns an empty list without having seen the %s getter fail: a header that has the other tags of the triple is reported as having no dependencies" % tagname, g.loc())
     gsb = f.one("package::PackageMetadata::get_scriptlet")
     ag = agg_fields(gsb, "types::Scriptlet")
     if rep.anchor(ag is not None, "R5", "Scriptlet aggregate in get_scriptlet"):
